@@ -369,7 +369,11 @@ func runCheck(id, tier string) int {
 		fmt.Fprintln(os.Stderr, err)
 		return 2
 	}
-	defer os.RemoveAll(scratch)
+	if os.Getenv("VF_KEEP") == "" {
+		defer os.RemoveAll(scratch)
+	} else {
+		fmt.Fprintln(os.Stderr, "keeping scratch", scratch)
+	}
 
 	var all []*result
 	var outcomes []runOutcome
